@@ -14,14 +14,15 @@
 From V Require Import Common.NumFacts C12.Model C12.Proofs.
 
 (* ---- totals, T, P ---- *)
+(* every conversion, the relabelling Stream accessors included *)
 Theorem C12_totals_preserved : forall s o s',
   wf s -> conversion o = true -> step s o = Ok s' -> forall j, total s' j == total s j.
-Proof. intros s o s' W C H. exact (proj1 (proj2 (proj2 (proj2 (step_conv s o s' C W H))))). Qed.
+Proof. intros s o s' W C H. exact (proj2 (proj2 (proj2 (step_conv0 s o s' C W H)))). Qed.
 Print Assumptions C12_totals_preserved.
 
 Theorem C12_TP_preserved : forall s o s',
   wf s -> conversion o = true -> step s o = Ok s' -> T_of s' = T_of s /\ P_of s' = P_of s.
-Proof. intros s o s' W C H. exact (proj1 (proj2 (proj2 (step_conv s o s' C W H)))). Qed.
+Proof. intros s o s' W C H. exact (proj1 (proj2 (proj2 (step_conv0 s o s' C W H)))). Qed.
 Print Assumptions C12_TP_preserved.
 
 (* ... along every history of conversions, of any length *)
@@ -32,11 +33,13 @@ Proof. exact run_conversions. Qed.
 Print Assumptions C12_totals_TP_all_histories.
 
 (* ---- placement ---- *)
+(* [norelabel s o]: o is not .vle/.lle/.sle of a single-phase Stream whose label the accessor rewrites to
+   'l' (see the refuted clause below); true of every other conversion *)
 Theorem C12_placement : forall s o s',
-  wf s -> conversion o = true -> step s o = Ok s' -> covers s (pset_now s') ->
+  wf s -> conversion o = true -> norelabel s o -> step s o = Ok s' -> covers s (pset_now s') ->
   forall q j, fl s' q j ==
     psum all_phases (fun p => if lands (pset_now s') p q then fl s p j else 0).
-Proof. intros s o s' W C H. exact (proj2 (proj2 (proj2 (proj2 (step_conv s o s' C W H))))). Qed.
+Proof. intros s o s' W C NR H. exact (proj2 (proj2 (proj2 (proj2 (step_conv s o s' C NR W H))))). Qed.
 Print Assumptions C12_placement.
 
 (* phases = <two or more distinct labels>: if it returns, the stream has exactly those phases, every
@@ -47,13 +50,59 @@ Theorem C12_explicit_target : forall s t s',
 Proof. exact set_phases_multi_target. Qed.
 Print Assumptions C12_explicit_target.
 
-(* merely asking for .vle/.lle/.sle moves nothing: every phase keeps its own material and label *)
-Theorem C12_accessor_moves_nothing : forall s a s',
+(* "merely asking for an equilibrium solver object keeps each phase's material in that phase":
+   the full clause, for every stream and every accessor *)
+Definition C12_accessor_moves_nothing_statement : Prop := forall s a s',
   wf s -> step s (OAcc a) = Ok s' ->
   covers s (pset_now s') /\ (forall q j, fl s' q j == fl s q j) /\
   (forall p, pset_now s p = true -> pset_now s' p = true).
+
+(* REFUTED by the code as it is: Stream.vle of a solid stream rewrites 's' to 'l' (known finding
+   C12:vle-relabels-solid; .lle and .sle relabel likewise, props/C12.py WITNESSES) *)
+Definition ex_solid : st := init_single 3 Ps [1; 0; 2] 300 101325.
+Theorem C12_accessor_moves_nothing_refuted : ~ C12_accessor_moves_nothing_statement.
+Proof.
+  intros H.
+  assert (E : exists s', step ex_solid (OAcc AVle) = Ok s' /\ fl s' Ps 0 == 0).
+  { eexists. split; [vm_compute; reflexivity|vm_compute; reflexivity]. }
+  destruct E as (s' & E & Z).
+  assert (W : wf ex_solid) by (apply (init_single_good 3 Ps [1; 0; 2] 300 101325 eq_refl)).
+  destruct (H ex_solid AVle s' W E) as (_ & K & _).
+  specialize (K Ps 0%nat). rewrite Z in K. vm_compute in K. discriminate.
+Qed.
+Print Assumptions C12_accessor_moves_nothing_refuted.
+
+(* what does hold: the clause for every MultiStream, and for a Stream whose phase already is one of the
+   two phases of the equilibrium *)
+Theorem C12_accessor_moves_nothing_partial : forall s a s',
+  wf s -> step s (OAcc a) = Ok s' -> acc_in_pair s a ->
+  covers s (pset_now s') /\ (forall q j, fl s' q j == fl s q j) /\
+  (forall p, pset_now s p = true -> pset_now s' p = true).
 Proof. exact accessor_keeps. Qed.
-Print Assumptions C12_accessor_moves_nothing.
+Print Assumptions C12_accessor_moves_nothing_partial.
+
+(* ... and placement by the case rule whenever the accessor does not rewrite the label (e.g. 'L'.vle) *)
+Theorem C12_accessor_placement_partial : forall s a s',
+  wf s -> norelabel s (OAcc a) -> step s (OAcc a) = Ok s' -> covers s (pset_now s') /\ placed s s'.
+Proof. exact accessor_placement_partial. Qed.
+Print Assumptions C12_accessor_placement_partial.
+
+(* the other relabelling call sites and the raise, as the model (= the code) has them *)
+Example C12_ex_sle_S_into_l :
+  match step (init_single 3 PS [1; 0; 2] 300 101325) (OAcc ASle) with
+  | Ok s => phases_of s = [Pl; Ps] /\ flow s Pl = [1; 0; 2] /\ flow s Ps = [0; 0; 0]
+  | Err _ => False
+  end.
+Proof. vm_compute. repeat split; reflexivity. Qed.
+Example C12_ex_lle_gas_into_l :
+  match step (init_single 3 Pg [1; 0; 2] 300 101325) (OAcc ALle) with
+  | Ok s => phases_of s = [PL; Pl] /\ flow s Pl = [1; 0; 2]
+  | Err _ => False
+  end.
+Proof. vm_compute. repeat split; reflexivity. Qed.
+Example C12_ex_vle_S_raises :
+  step (init_single 3 PS [1; 0; 2] 300 101325) (OAcc AVle) = Err EUndefPhase.
+Proof. vm_compute. reflexivity. Qed.
 
 (* ---- live views ---- *)
 Theorem C12_views_live : forall ops s s', live_inv s -> run s ops = Ok s' -> live_inv s'.
@@ -121,18 +170,18 @@ Proof. exact restore_total. Qed.
 Print Assumptions C12_restore_never_raises.
 
 (* ---- non-vacuity: the hypotheses are met by reachable states, and the histories do return ---- *)
-Definition ex0 : st := init_single 3 Ps [1; 0; 2] 300 101325.
+Definition ex0 : st := init_single 3 Pl [1; 0; 2] 300 101325.
 Example C12_ex_good : good ex0 /\ live_inv ex0.
 Proof. apply init_single_good. reflexivity. Qed.
 
-(* a solid stream: .vle, take the view of 's', change the phases, write through the OLD view, save,
+(* a liquid stream: .vle, take the view of 'l', change the phases, write through the OLD view, save,
    mutate, collapse, restore: everything returns *)
 Definition ex_ops : list op :=
-  [OAcc AVle; OView Ps; OSetPhases [PS; Pg; Pl; PL] false; OWriteView 0 1 (7#2); OSave;
+  [OAcc AVle; OView Pl; OSetPhases [PS; Pg; Pl; PL] false; OWriteView 0 1 (7#2); OSave;
    OWriteParent Pg 0 5; OSetT 400; OReduce; ORestore 0].
 Example C12_ex_history_returns :
   match run ex0 ex_ops with
-  | Ok s => phases_of s = [PL; PS; Pg; Pl] /\ flow s PS = [1; 7#2; 2] /\ T_of s = 300 /\
+  | Ok s => phases_of s = [PL; PS; Pg; Pl] /\ flow s Pl = [1; 7#2; 2] /\ T_of s = 300 /\
             total s 0%nat == 1 /\ is_multi s = true
   | Err _ => False
   end.
@@ -140,15 +189,15 @@ Proof. vm_compute. repeat split; reflexivity. Qed.
 
 (* the view taken before the phase change still is the parent's sub-stream and sees the parent's row *)
 Example C12_ex_view_live :
-  match run ex0 [OAcc AVle; OView Ps; OSetPhases [PS; Pg; Pl; PL] false; OWriteParent PS 2 9] with
-  | Ok s => map (fun v => (vin v, cellv (heap s) (vcell v))) (views s) = [(true, [1; 0; 9])] /\ flow s PS = [1; 0; 9]
+  match run ex0 [OAcc AVle; OView Pl; OSetPhases [PS; Pg; Pl; PL] false; OWriteParent Pl 2 9] with
+  | Ok s => map (fun v => (vin v, cellv (heap s) (vcell v))) (views s) = [(true, [1; 0; 9])] /\ flow s Pl = [1; 0; 9]
   | Err _ => False
   end.
 Proof. vm_compute. split; reflexivity. Qed.
 
-Example C12_ex_covers : covers ex0 (pset_of [PS; Pg]) /\ ~ covers ex0 (pset_of [Pg; Pl]).
+Example C12_ex_covers : covers ex0 (pset_of [PL; Pg]) /\ ~ covers ex0 (pset_of [Pg; Ps]).
 Proof.
   split.
   - intros p j R. destruct p; try (vm_compute in R; discriminate); exact (nthq_vzero 3 j).
-  - intros H. specialize (H Ps 0%nat eq_refl). vm_compute in H. discriminate.
+  - intros H. specialize (H Pl 0%nat eq_refl). vm_compute in H. discriminate.
 Qed.
